@@ -338,6 +338,7 @@ pub fn run(ctx: &mut Ctx) {
         // filters_used vs individual conversion (network first, then cosmetic, each in input order)
         let mut exp_used: Vec<String> = vec![];
         let mut rejected = 0;
+        let mut reported_without_output: Vec<String> = vec![];
         for kind in 0..2 {
             for line in &rules {
                 let parsed = parse_filter(line, true, ParseOptions::default());
@@ -350,13 +351,23 @@ pub fn run(ctx: &mut Ctx) {
                     continue;
                 }
                 match convert(&[line.clone()]) {
-                    Ok(Ok((_, u))) if !u.is_empty() => exp_used.push(line.trim().to_string()),
+                    Ok(Ok((cb1, u))) if !u.is_empty() => {
+                        // a rule reported as converted produced output of its own (a set with a
+                        // converted network rule also ends with one constant trailer entry)
+                        if cb1.len() < if is_cos { 1 } else { 2 } {
+                            reported_without_output.push(line.clone());
+                        }
+                        exp_used.push(line.trim().to_string())
+                    }
                     Ok(_) => rejected += 1,
                     Err(_) => {}
                 }
             }
         }
         let mut sigs: Vec<(String, serde_json::Value)> = vec![];
+        if !reported_without_output.is_empty() {
+            sigs.push(("C20:rule-reported-as-converted-without-output".into(), json!({"rules": reported_without_output})));
+        }
         if used != exp_used {
             sigs.push(("C20:filters_used-differs-from-rules-that-convert-alone".into(), json!({"filters_used": used, "rules_converting_alone": exp_used})));
         }
